@@ -80,8 +80,10 @@ TB_ROUTING = ['regexp.MatchString / full-segment match are oracles tabulated per
               'conditions, handlers and filters are the harness\'s behaviour scripts']
 RULE_ROUTE = ('tables (1-4 services, 0-6 routes each, overlapping templates over a tiny alphabet, all documented token '
               'forms) and requests (72% derived from a route with 0-2 mutations, 18% adversarial paths, 10% random) from '
-              'VERIF_SEED by harness/cmd/h/route.go, both routers; distinct = distinct case text; non-trivial = outcome '
-              'class is not a plain 404')
+              'VERIF_SEED by harness/cmd/h/route.go, both routers; sibling routes of one method with literal / variable '
+              'positions flipped and requests aimed at two routes at once; values with newline, percent escapes, non-ASCII; '
+              '4% of requests with one separator sent as %2F (URL.RawPath); 15% with trace logging on, and every request served '
+              'a second time with tracing flipped; distinct = distinct case text; non-trivial = outcome class is not a plain 404')
 
 TB_GO_STDLIB_CORS = ['strings.ToLower is an oracle (tabulated per case by calling the Go standard library)',
                      'net/http Header canonicalisation and httptest.ResponseRecorder']
@@ -216,7 +218,8 @@ PROPS = {
 RULE_DISP = ('configurations (route table of literal/variable templates with a service on "/", 0-3 container, 0-2 service and '
              '0-2 route filters as behaviour scripts: headers, status, writes, attributes, pass / stop / pass a NEW request '
              'wrapper, panics at 0/30/100%; route functions; container and per-route encoding switch; recovery on/off; recover '
-             'script; sync.Pool or bounded-cache provider with capacity 0/1/2/8) and histories of 1-16 requests (entry point '
+             'script incl. statuses 204 / 304; plain handlers via Handle / HandleWithFilter; http middleware adapted as filters; '
+             'trace logging on/off; sync.Pool or bounded-cache provider with capacity 0/1/2/8) and histories of 1-16 requests (entry point '
              'Dispatch or ServeHTTP, Accept-Encoding variants, pre-set Content-Encoding), each history run sequentially on one '
              'container, request by request on fresh containers, and (25%) concurrently from 2-8 goroutines; distinct = distinct '
              'case text; non-trivial = some script ran (class not "empty")')
